@@ -132,7 +132,13 @@ int main(void)
       for(r = 0; r < reps; r++){
         matrix *py, *pr; char nm[64];
         initMatrix(&py); initMatrix(&pr);
-        BootstrapRandomGroupsCV(&in, group, iter, (AlgorithmType)algo, py, pr, nth, NULL, 0);
+        /* the caller's own seeded stream: what it draws after the call may not depend on the call having happened */
+        { int ref0, ref1, got0, got1;
+          srand_(777u + (unsigned)r); ref0 = randInt(0, 1000000); ref1 = randInt(0, 1000000);
+          srand_(777u + (unsigned)r);
+          BootstrapRandomGroupsCV(&in, group, iter, (AlgorithmType)algo, py, pr, nth, NULL, 0);
+          got0 = randInt(0, 1000000); got1 = randInt(0, 1000000);
+          snprintf(nm, sizeof nm, "caller_stream_perturbed%lu", (unsigned long)r); pr_long(nm, (ref0 != got0 || ref1 != got1) ? 1 : 0); }
         snprintf(nm, sizeof nm, "pred%lu", (unsigned long)r); pr_matrix(nm, py);
         DelMatrix(&py); DelMatrix(&pr);
       }
